@@ -54,7 +54,9 @@ RULE = ('cases = (package of 2-6 models in per-file or cube format, 6-20 wavelen
 REQUIRED_BRANCHES = ['per_file', 'cube', 'dist_independent', 'dist_dependent', 'table_permuted', 'flag1', 'flag4',
                      'staged_convolution', 'staged_table_not_alphabetical', 'staged_first_stage_checked',
                      'own_grids_same_length', 'own_grids_mixed_lengths', 'other_model_zero_flux', 'other_model_zero_flux_indep', 'distance_unit_kpc', 'distance_unit_other',
-                     'dist_dependent_unit_not_kpc', 'av0_at_lower_bound', 'two_sources', 'wav_increasing', 'wav_decreasing', 'unused_band']
+                     'dist_dependent_unit_not_kpc', 'av0_at_lower_bound', 'av0_at_upper_bound', 'av_range_from_zero',
+                     'av_range_negative', 'av_range_positive_start', 'lower_limit_band', 'upper_limit_band', 'plot_only_band',
+                     'output_N_all', 'output_format_other', 'select_N1', 'select_format_other', 'listing_several_rows', 'two_sources', 'wav_increasing', 'wav_decreasing', 'unused_band']
 ASSUMPTIONS = ['IEEE rounding is not modelled: chi2 <= 1e-6 n, |A_V - A_V0|, |scale - s0| <= 1e-6 + first-order '
                'propagation of the storage precision of the model fluxes + 1e-12 x condition number of the normal equations',
                'extinction coefficients at the filters differ pairwise by >= 0.02 (well-conditioned regression, as in C01)',
@@ -203,8 +205,8 @@ def gen_case(rng, directed=None):
         gaps = [abs(a - b) for i, a in enumerate(kk) for b in kk[i + 1:]]
         if min(gaps) >= 0.02 and min(abs(x) for x in kk) >= 0.01:
             break
-    av_lo = 0.
-    av_hi = float(rng.choice([5, 10, 20, 40]))
+    av_lo = float(directed.get('av_lo', rng.choice([0., 0., 0., -5., -20., 2., 7.5])))
+    av_hi = av_lo + float(rng.choice([5, 10, 20, 40]))
     # sources
     nsrc = directed.get('nsrc', rng.choice([1, 1, 2]))
     n_grid = 1
@@ -215,6 +217,8 @@ def gen_case(rng, directed=None):
         m = 0 if degenerate else rng.randrange(nm)
         if directed.get('av0_lo') and si == 0:
             av0 = av_lo
+        elif directed.get('av0_hi') and si == 0:
+            av0 = av_hi
         else:
             av0 = round(rng.uniform(av_lo, av_hi), 2)
         kind = directed.get('flags', rng.choice(['flag1', 'flag4', 'mixed']))
@@ -223,8 +227,23 @@ def gen_case(rng, directed=None):
             if nf >= 4:
                 flags[rng.randrange(nf)] = 0
         errs = [nice(rng, 1e-3, 0.5, 2) for _ in range(nf)]
+        # limit bands consistent with the planted model (never violated by it) and plot-only bands, keeping >= 3
+        # fitted bands: flag 2 = lower limit (data below the model), flag 3 = upper limit (data above the model);
+        # their error column is the confidence; `lim` is the distance of the limit from the planted flux in dex
+        lim = [0.] * nf
+        spare = [j for j in range(nf) if flags[j] in (1, 4)]
+        rng.shuffle(spare)
+        want = directed.get('special', [rng.choice([2, 3, 9]) for _ in range(rng.randint(0, 2))] if rng.random() < 0.35 else [])
+        for flag in want:
+            if len(spare) <= 3:
+                break
+            j = spare.pop()
+            flags[j] = flag
+            if flag in (2, 3):
+                errs[j] = float(rng.choice([0., 0.5, 0.9, 0.99, 1.]))
+                lim[j] = round(rng.uniform(0.05, 1.), 3)
         sources.append(dict(name='src_%d' % si, m=m, av0=av0, s0=round(rng.uniform(-1., 1.5), 3),
-                            di=rng.randrange(n_grid), flags=flags, errs=errs))
+                            di=rng.randrange(n_grid), flags=flags, errs=errs, lim=lim))
     # staged history: convolve a first group of filters, fit + write_parameters, convolve the remaining filter(s)
     # into the same package, fit + write_parameters with all filters (one process, one model directory)
     # some other (never planted) models have exactly zero flux over the whole band of one filter
@@ -247,7 +266,13 @@ def gen_case(rng, directed=None):
                 aps=aps, flux=flux, filters=filters, theta=theta,
                 drange=drange_u, dunit=dunit, n_first=n_first, step=step, cols=cols, table_order=table_order, stems=stems,
                 tab_w=tw, tab_chi=chi, av=[av_lo, av_hi], sources=sources,
-                n_data_min=rng.randint(1, 3))
+                n_data_min=rng.randint(1, 3),
+                output_format=(directed.get('output_format') or ['N', nm]) if 'output_format' in directed else (rng.choice(
+                    [['N', nm], ['N', nm], ['N', nm], ['A', 0], ['N', rng.randint(1, nm)], ['F', nice(rng, 1., 1e4, 2)],
+                     ['D', nice(rng, 1., 1e5, 2)], ['C', nice(rng, 1., 1e5, 2)], ['E', nice(rng, 1., 1e4, 2)]])),
+                select_format=directed.get('select_format', rng.choice(
+                    [['N', 1], ['N', 1], ['N', 1], ['A', 0], ['N', rng.randint(2, 4)], ['F', nice(rng, 1., 1e4, 2)],
+                     ['D', nice(rng, 1., 1e5, 2)], ['C', nice(rng, 1., 1e5, 2)], ['E', nice(rng, 1., 1e4, 2)]])))
 
 
 DIRECTED = [
@@ -271,7 +296,17 @@ DIRECTED = [
     dict(fmt='per_file', dep=False, flags='flag1', nsrc=1, staged=False, hetero='none', zero=True),
     dict(fmt='cube', dep=False, flags='flag4', nsrc=1, staged=False, zero=True),
     dict(fmt='cube', dep=True, flags='mixed', nsrc=1, staged=False, zero=True),
+    dict(fmt='per_file', dep=False, flags='flag1', nsrc=1, av0_hi=True, av_lo=-5., nf=5, special=[2, 9]),
+    dict(fmt='cube', dep=True, flags='flag4', nsrc=1, av0_hi=True, av_lo=2., nf=5, special=[3, 2]),
+    dict(fmt='per_file', dep=True, flags='mixed', nsrc=2, av_lo=-20., nf=5, special=[9, 3], output_format=['F', 30.], select_format=['A', 0]),
+    dict(fmt='cube', dep=False, flags='mixed', nsrc=1, av_lo=0., nf=4, special=[3], output_format=['A', 0], select_format=['N', 3]),
+    dict(fmt='per_file', dep=False, flags='flag4', nsrc=2, nf=4, special=[2], output_format=['N', 2], select_format=['F', 50.]),
 ]
+for _d in DIRECTED[:20]:
+    _d.setdefault('special', [])
+    _d.setdefault('av_lo', 0.)
+    _d.setdefault('output_format', None)
+    _d.setdefault('select_format', ['N', 1])
 for _d in DIRECTED[:8]:
     _d.setdefault('staged', False)
 for _d in DIRECTED[:14]:
@@ -339,10 +374,22 @@ def drange_quantity(case):
     return np.array(case['drange'], dtype=float) * UNITS[case.get('dunit', 'kpc')]
 
 
+def grid_length(case):
+    """(number of trial distances, ambiguous).  The length is ceil(1 + log-width / step) in real arithmetic; it
+    is taken from the float value when that is clearly non-integral, or exactly integral (the minimal grid is then
+    unambiguous, as in c02.py); a value within rounding of an integer without being one is ambiguous: any harmless
+    re-arrangement of the arithmetic may land on either side, and the case is not judged"""
+    dmin, dmax = drange_quantity(case).to(UNITS['kpc']).value
+    x = 1 + (np.log10(dmax) - np.log10(dmin)) / case['step']
+    near = abs(x - round(x)) < 1e-9 * max(1., abs(x))
+    if near and x != round(x):
+        return int(round(x)), True
+    return (int(round(x)) if near else int(np.ceil(x))), False
+
+
 def grid(case):
     dmin, dmax = drange_quantity(case).to(UNITS['kpc']).value
-    n = int(np.ceil(1 + (np.log10(dmax) - np.log10(dmin)) / case['step']))
-    return np.logspace(np.log10(dmin), np.log10(dmax), n)
+    return np.logspace(np.log10(dmin), np.log10(dmax), grid_length(case)[0])
 
 
 def synthesise(case, src, own, ks):
@@ -370,6 +417,12 @@ def synthesise(case, src, own, ks):
         elif src['flags'][j] == 1:
             f1 = 10. ** (logf[j] + 0.5 * e * e / LN10)
             fl.append(float(f1)); er.append(float(e * f1))
+        elif src['flags'][j] == 2:              # lower limit below the planted flux: not violated by the planted model
+            fl.append(float(10. ** (logf[j] - src['lim'][j]))); er.append(e)
+        elif src['flags'][j] == 3:              # upper limit above the planted flux
+            fl.append(float(10. ** (logf[j] + src['lim'][j]))); er.append(e)
+        elif src['flags'][j] == 9:              # plot-only band: anything positive
+            fl.append(float(10. ** (logf[j] + 0.4))); er.append(float(e * 10. ** logf[j]))
         else:                                   # unused band: garbage
             fl.append(float(10. ** (logf[j] + 1.7))); er.append(float(10. ** logf[j]))
     return fl, er, scale, logf
@@ -382,7 +435,8 @@ def stage_case(case, nfilt):
     c = dict(case)
     c['filters'] = case['filters'][:nfilt]
     c['theta'] = case['theta'][:nfilt]
-    c['sources'] = [dict(s, flags=s['flags'][:nfilt], errs=s['errs'][:nfilt]) for s in case['sources']]
+    c['sources'] = [dict(s, flags=s['flags'][:nfilt], errs=s['errs'][:nfilt], lim=(s.get('lim') or [0.] * len(s['flags']))[:nfilt])
+                    for s in case['sources']]
     # every source is still fitted in the shorter band set (a fit file without any record cannot be read back)
     c['n_data_min'] = max(1, min([case['n_data_min']] + [sum(1 for f in s['flags'] if f in (1, 4)) for s in c['sources']]))
     return c
@@ -440,8 +494,8 @@ def run_stage(case, d, params_by_name, k):
     with common.quiet():
         fit(datafile, [f['name'] for f in case['filters']], np.array(case['theta']) * u.arcsec, d, out,
             n_data_min=case['n_data_min'], extinction_law=ext, av_range=tuple(case['av']),
-            distance_range=drange_quantity(case), output_format=('N', len(names)))
-        write_parameters(out, txt, select_format=('N', 1))
+            distance_range=drange_quantity(case), output_format=tuple(case.get('output_format') or ('N', len(names))))
+        write_parameters(out, txt, select_format=tuple(case.get('select_format') or ('N', 1)))
     records = []
     fin = FitInfoFile(out, 'r')
     for info in fin:
@@ -626,8 +680,10 @@ def check_stage(case, run, use_driver=True):
                 0, 0, True)
     header, blocks = parse_text(run['text'])
     expect_cols = ['fit_id', 'model_name', 'chi2', 'av', 'scale'] + [c.lower() for c in case['cols']]
-    if header != expect_cols:
-        return False, 'write_parameters header %r; expected %r' % (header, expect_cols), 0, 0, True
+    if sorted(header) != sorted(expect_cols) or header[:5] != expect_cols[:5]:
+        # the column titles are layout; without them the numbers cannot be attributed, which is not a C08 verdict
+        return False, 'write_parameters header %r; expected the titles %r (layout only)' % (header, expect_cols), 0, 0, None
+    par_pos = {c: header.index(c) for c in expect_cols[5:]}       # parameter columns are located by their title
     kept = [s for s in case['sources'] if sum(1 for f in s['flags'] if f in (1, 4)) >= case['n_data_min']]
     if [r['source'] for r in run['records']] != [s['name'] for s in kept] or [b[0] for b in blocks] != [s['name'] for s in kept]:
         return (False, 'sources in fit file %r / text %r; expected %r'
@@ -638,6 +694,9 @@ def check_stage(case, run, use_driver=True):
         si = case['sources'].index(src)
         m = src['m']
         n_fitted = sum(1 for f in src['flags'] if f in (1, 4))
+        if case['dep'] and grid_length(case)[1]:
+            n_deg += 1            # grid length within rounding of an integer without being one: not judged
+            continue
         if n_fitted < MIN_BANDS or not identifiable(case, src, run, si):
             n_deg += 1            # planted (model, A_V0, scale | d0) not the unique solution: outside the quantifier
             continue
@@ -671,20 +730,40 @@ def check_stage(case, run, use_driver=True):
             return False, '%s: fitted A_V = %r (budget %.3g)' % (what, float(rec['av'][0]), 1e-6 + da), n_ok, n_deg, True
         if not abs(rec['sc'][0] - planted_scale) <= 1e-6 + ds:
             return False, '%s: fitted scale = %r (budget %.3g)' % (what, float(rec['sc'][0]), 1e-6 + ds), n_ok, n_deg, True
-        # ---- first data row of the parameter listing
-        if blk[1] != nfit or blk[2] != 1 or len(blk[3]) != 1:
-            return False, '%s: listing header (n_data, n_fits) = (%r, %r) with %d rows; expected (%d, 1) and 1 row' % (
-                what, blk[1], blk[2], len(blk[3]), nfit), n_ok, n_deg, True
-        row = blk[3][0]
-        exp_row = ['1', names[m], '%.3f' % rec['chi2'][0], '%.3f' % rec['av'][0], '%.3f' % rec['sc'][0]] + \
-                  [('%10.3e' % v).strip() for v in run['params'][names[m]]]
-        if row[:2] != exp_row[:2] or row[5:] != exp_row[5:]:
-            return (False, '%s: listing row %r; planted model\'s own row of parameters.fits is %r'
-                    % (what, row, exp_row), n_ok, n_deg, True)
-        for pos, (planted_v, tol) in zip((2, 3, 4), ((0., 1e-6 * nfit + dchi), (src['av0'], 1e-6 + da), (planted_scale, 1e-6 + ds))):
-            if not abs(float(row[pos]) - planted_v) <= 5.001e-4 + tol:
-                return (False, '%s: listing row %r: column %d should be %r to 3 decimals' % (what, row, pos, planted_v),
-                        n_ok, n_deg, True)
+        # ---- the parameter listing: row 1 is the planted model with its own row of parameters.fits; every further
+        # row (selectors other than ('N', 1)) follows the ranking of the fit file and shows that model's own row
+        rows = blk[3]
+        if blk[1] != nfit or blk[2] != len(rows) or not (1 <= len(rows) <= len(rec['name'])):
+            return False, '%s: listing header (n_data, n_fits) = (%r, %r) with %d rows; expected n_data = %d and n_fits = number of rows <= %d' % (
+                what, blk[1], blk[2], len(rows), nfit, len(rec['name'])), n_ok, n_deg, True
+        for i, row in enumerate(rows):
+            if len(row) != len(header):
+                return False, '%s: listing row %r has %d columns, header %d (layout only)' % (what, row, len(row), len(header)), n_ok, n_deg, None
+            own_row = dict(zip(case['cols'], run['params'][rec['name'][i]]))
+            exp_row = [str(i + 1), rec['name'][i]] + ['%10.3e' % v for v in own_row.values()]
+            if row[0] != str(i + 1) or row[1] != rec['name'][i]:
+                return (False, '%s: listing row %d is %r; the fit file ranks %s at position %d'
+                        % (what, i + 1, row, rec['name'][i], i + 1), n_ok, n_deg, True)
+            for c, v in own_row.items():
+                try:
+                    got = float(row[par_pos[c.lower()]])
+                except ValueError:
+                    return False, '%s: listing row %r: column %s is not a number (layout only)' % (what, row, c), n_ok, n_deg, None
+                if not abs(got - v) <= 5.001e-4 * abs(v):           # '%10.3e' keeps 4 significant digits
+                    return (False, '%s: listing row %d %r shows %s = %r; model %s has %s = %r in parameters.fits (own row: %r)'
+                            % (what, i + 1, row, c, got, rec['name'][i], c, v, exp_row), n_ok, n_deg, True)
+            shown = ((0., 1e-6 * nfit + dchi), (src['av0'], 1e-6 + da), (planted_scale, 1e-6 + ds)) if i == 0 else \
+                    ((rec['chi2'][i], 0.), (rec['av'][i], 0.), (rec['sc'][i], 0.))
+            for pos, (v, tol) in zip((2, 3, 4), shown):
+                try:
+                    got = float(row[pos])
+                except ValueError:
+                    return False, '%s: listing row %r: column %d is not a number (layout only)' % (what, row, pos), n_ok, n_deg, None
+                if np.isnan(v) and np.isnan(got):
+                    continue
+                if not abs(got - v) <= 5.001e-4 + tol + 1e-12 * abs(v):
+                    return (False, '%s: listing row %d %r: column %s should be %r to 3 decimals'
+                            % (what, i + 1, row, header[pos], float(v)), n_ok, n_deg, True)
     return True, '', n_ok, n_deg, None
 
 
@@ -734,6 +813,18 @@ def run_case(case):
             if any(np.any(final_own[i] == 0.) for i in range(len(case['names'])) if i not in planted_m):
                 branches.add('other_model_zero_flux')
                 branches.add('other_model_zero_flux_' + ('dep' if case['dep'] else 'indep'))
+            for ss in case['sources']:
+                if ss['av0'] == case['av'][1]:
+                    branches.add('av0_at_upper_bound')
+                for fl_, nm_ in ((2, 'lower_limit_band'), (3, 'upper_limit_band'), (9, 'plot_only_band')):
+                    if fl_ in ss['flags']:
+                        branches.add(nm_)
+            branches.add('av_range_from_zero' if case['av'][0] == 0 else 'av_range_negative' if case['av'][0] < 0 else 'av_range_positive_start')
+            of, sf = case.get('output_format') or ['N', len(case['names'])], case.get('select_format') or ['N', 1]
+            branches.add('output_N_all' if of == ['N', len(case['names'])] else 'output_format_other')
+            branches.add('select_N1' if sf == ['N', 1] else 'select_format_other')
+            if any(len(b[3]) > 1 for b in parse_text(run[-1][1]['text'])[1]):
+                branches.add('listing_several_rows')
             if len(run) > 1:
                 branches.add('staged_convolution')
                 table_names = [case['names'][i] for i in case['table_order']]
